@@ -304,10 +304,47 @@ Fixpoint apply_kvs (P : path) (kvs : list (string * json)) (body : json) : res j
   | (k, v) :: rest => bind (apply_at body (P ++ [k]) v) (apply_kvs P rest)
   end.
 
-Lemma apply_at_obj body P kvs : apply_at body P (JObj kvs) = apply_kvs P kvs body.
+Lemma apply_at_obj body P kvs :
+  apply_at body P (JObj kvs) = bind (overwrite_nonmapping body P) (apply_kvs P kvs).
 Proof.
-  simpl. revert body. induction kvs as [|[k v] rest IH]; intro body; simpl; [reflexivity|].
-  destruct (apply_at body (P ++ [k]) v); simpl; auto.
+  simpl. destruct (overwrite_nonmapping body P) as [b| | |]; simpl; try reflexivity.
+  revert b. induction kvs as [|[k v] rest IH]; intro b; simpl; [reflexivity|].
+  destruct (apply_at b (P ++ [k]) v); simpl; auto.
+Qed.
+
+(* the new first statement of the Mapping case: afterwards there is a mapping or nothing at P,
+   nothing else has changed, and what was a non-mapping at P has no leaves left below P *)
+Lemma overwrite_leaf body P :
+  (forall q, strict_prefix q P -> leaf_at body q = None) ->
+  (P = [] -> leaf_at body [] = None) ->
+  exists b1, overwrite_nonmapping body P = Ok b1 /\
+    leaf_at b1 P = None /\
+    (forall q, q <> [] -> leaf_at b1 (P ++ q) = leaf_at body (P ++ q)) /\
+    (forall q, ~ is_prefix P q -> leaf_at b1 q = leaf_at body q).
+Proof.
+  intros HG1 Hroot. unfold overwrite_nonmapping.
+  assert (Hkeep : leaf_at body P = None ->
+            exists b1, Ok body = Ok b1 /\ leaf_at b1 P = None /\
+              (forall q, q <> [] -> leaf_at b1 (P ++ q) = leaf_at body (P ++ q)) /\
+              (forall q, ~ is_prefix P q -> leaf_at b1 q = leaf_at body q)).
+  { intro H. exists body. repeat split; auto. }
+  destruct (resolve body P) as [x|] eqn:Er.
+  - assert (Hx : leaf_at body P = match x with JObj _ => None | _ => Some x end)
+      by (unfold leaf_at; rewrite Er; destruct x; reflexivity).
+    assert (Hover : is_obj x = false ->
+              exists b1, ensure body P (JObj []) = Ok b1 /\ leaf_at b1 P = None /\
+                (forall q, q <> [] -> leaf_at b1 (P ++ q) = leaf_at body (P ++ q)) /\
+                (forall q, ~ is_prefix P q -> leaf_at b1 q = leaf_at body q)).
+    { intro Hno.
+      assert (HP : P <> []).
+      { intros ->. specialize (Hroot eq_refl). rewrite Hx in Hroot. destruct x; try discriminate. }
+      destruct (ensure_leaf P body (JObj []) HP HG1) as (b1 & He & H2 & H3).
+      exists b1. split; [exact He|]. split; [|split; [|exact H3]].
+      - specialize (H2 []). rewrite app_nil_r in H2. exact H2.
+      - intros q Hq. rewrite H2, leaf_at_empty, leaf_at_app, Er.
+        destruct q as [|k q]; [congruence|]. symmetry. apply leaf_at_nonobj_cons. exact Hno. }
+    destruct x; try (apply Hover; reflexivity). apply Hkeep. exact Hx.
+  - apply Hkeep. unfold leaf_at. now rewrite Er.
 Qed.
 
 Definition claim (V : json) : Prop :=
@@ -315,17 +352,17 @@ Definition claim (V : json) : Prop :=
     (is_obj V = true \/ P <> []) ->
     wf V = true ->
     (forall q, strict_prefix q P -> leaf_at body q = None) ->
-    (forall r o, resolve V r = Some (JObj o) -> leaf_at body (P ++ r) = None) ->
+    (P = [] -> leaf_at body [] = None) ->
     (forall q, q <> [] -> leaf_at T q = leaf_at body (P ++ q)) ->
     exists b', apply_at body P V = Ok b' /\
       (forall r, leaf_at b' (P ++ r) = lf (merge_opt T V) r) /\
       (forall q, ~ is_prefix P q -> leaf_at b' q = leaf_at body q).
 
 Lemma claim_value V :
-  is_obj V = false -> V <> JNull -> apply_at = (fun b p v => apply_at b p v) ->
+  is_obj V = false -> V <> JNull ->
   (forall b p, apply_at b p V = ensure b p V) -> (forall T, merge T V = V) -> claim V.
 Proof.
-  intros Hno Hnn _ Hap Hm body P T [Ho|HP] _ HG1 _ _; [congruence|].
+  intros Hno Hnn Hap Hm body P T [Ho|HP] _ HG1 _ _; [congruence|].
   destruct (ensure_leaf P body V HP HG1) as (b' & He & H2 & H3).
   exists b'. rewrite Hap. split; [exact He|]. split; [|exact H3].
   intro r. rewrite H2. unfold merge_opt, lf. destruct V; try congruence; rewrite Hm; reflexivity.
@@ -337,7 +374,6 @@ Lemma fold_claim P T : forall kvs body,
   forallb (fun kv => wf (snd kv)) kvs = true ->
   (forall q, strict_prefix q P -> leaf_at body q = None) ->
   leaf_at body P = None ->
-  (forall k v r o, In (k, v) kvs -> resolve v r = Some (JObj o) -> leaf_at body (P ++ k :: r) = None) ->
   (forall k v q, In (k, v) kvs -> leaf_at T (k :: q) = leaf_at body (P ++ k :: q)) ->
   exists b', apply_kvs P kvs body = Ok b' /\
     (forall k r, leaf_at b' (P ++ k :: r) =
@@ -348,7 +384,7 @@ Lemma fold_claim P T : forall kvs body,
     leaf_at b' P = None /\
     (forall q, ~ is_prefix P q -> leaf_at b' q = leaf_at body q).
 Proof.
-  induction kvs as [|[k0 v0] rest IH]; intros body Hc Hnd Hwf HG1 HG1' HG2 HT.
+  induction kvs as [|[k0 v0] rest IH]; intros body Hc Hnd Hwf HG1 HG1' HT.
   - exists body. split; [reflexivity|]. split; [intros; reflexivity|]. split; [exact HG1'|reflexivity].
   - inversion Hc as [|? ? Hc0 Hcr]; subst. simpl in Hc0.
     simpl in Hnd. apply andb_true_iff in Hnd. destruct Hnd as [Hn0 Hndr]. apply negb_true_iff in Hn0.
@@ -360,14 +396,12 @@ Proof.
     + right. intro Hx. apply app_eq_nil in Hx. destruct Hx; discriminate.
     + exact Hw0.
     + intros q Hq. apply strict_prefix_snoc in Hq. destruct Hq as [Hq | ->]; [apply HG1; exact Hq|exact HG1'].
-    + intros r o Hr. rewrite <- app_assoc. simpl. eapply HG2; [left; reflexivity|exact Hr].
+    + intro Hx. apply app_eq_nil in Hx. destruct Hx; discriminate.
     + intros q Hq. rewrite <- app_assoc. simpl. unfold T0. rewrite leaf_at_sub by exact Hq.
       apply (HT k0 v0 q). left. reflexivity.
     + destruct (IH b1) as (b' & Ha & H2 & H2' & H3); try assumption.
       * intros q Hq. rewrite H13; [apply HG1; exact Hq|]. apply strict_prefix_not_ext. left. exact Hq.
       * rewrite H13; [exact HG1'|]. apply strict_prefix_not_ext. right. reflexivity.
-      * intros k v r o Hin Hr. rewrite H13; [eapply HG2; [right; exact Hin|exact Hr]|].
-        apply sibling_not_ext. eapply Hsib; eauto.
       * intros k v q Hin. rewrite H13; [apply (HT k v q); right; exact Hin|].
         apply sibling_not_ext. eapply Hsib; eauto.
       * exists b'. split; [simpl; rewrite Ha1; simpl; exact Ha|]. split; [|split; [exact H2'|]].
@@ -391,55 +425,46 @@ Proof.
   - apply claim_value; try reflexivity; discriminate.
   - apply claim_value; try reflexivity; discriminate.
   - apply claim_value; try reflexivity; discriminate.
-  - (* mapping *)
-    intros body P T _ Hwf HG1 HG2 HT. rewrite apply_at_obj.
+  - (* mapping: overwrite a non-mapping by {}, then key by key *)
+    intros body P T _ Hwf HG1 Hroot HT. rewrite apply_at_obj.
     simpl in Hwf. apply andb_true_iff in Hwf. destruct Hwf as [Hnd Hwfs].
-    destruct (fold_claim P T kvs body) as (b' & Ha & H2 & H2' & H3); try assumption.
-    + specialize (HG2 [] kvs eq_refl). now rewrite app_nil_r in HG2.
-    + intros k v r o Hin Hr. apply (HG2 (k :: r) o). simpl. now rewrite (md_in_lookup _ _ _ Hnd Hin).
-    + intros k v q _. apply HT. discriminate.
-    + exists b'. split; [exact Ha|]. split; [|exact H3].
-      intro r. unfold merge_opt, lf. rewrite merge_obj. destruct r as [|k r].
-      * rewrite app_nil_r. exact H2'.
-      * rewrite H2, leaf_at_obj_cons, mgo_lookup by exact Hnd.
-        destruct (lookup k kvs) as [v|] eqn:El.
-        -- destruct v; reflexivity.
-        -- rewrite <- leaf_at_cons_obj_of. symmetry. apply HT. discriminate.
+    destruct (overwrite_leaf body P HG1 Hroot) as (b1 & Ho & Hb1P & Hb1in & Hb1out).
+    rewrite Ho. change (bind (Ok b1) (apply_kvs P kvs)) with (apply_kvs P kvs b1).
+    assert (HT1 : forall q, q <> [] -> leaf_at T q = leaf_at b1 (P ++ q))
+      by (intros q Hq; rewrite Hb1in by exact Hq; apply HT; exact Hq).
+    destruct (fold_claim P T kvs b1) as (b' & Ha & H2 & H2' & H3); try assumption.
+    + intros q Hq. rewrite Hb1out; [apply HG1; exact Hq|].
+      intros (r & ->). destruct Hq as (r' & Hr' & Heq).
+      rewrite <- app_assoc in Heq. rewrite <- (app_nil_r P) in Heq at 1.
+      apply app_inv_head in Heq. symmetry in Heq. apply app_eq_nil in Heq. destruct Heq. contradiction.
+    + intros k v q _. apply HT1. discriminate.
+    + exists b'. split; [exact Ha|]. split.
+      * intro r. unfold merge_opt, lf. rewrite merge_obj. destruct r as [|k r].
+        -- rewrite app_nil_r. exact H2'.
+        -- rewrite H2, leaf_at_obj_cons, mgo_lookup by exact Hnd.
+           destruct (lookup k kvs) as [v|] eqn:El.
+           ++ destruct v; reflexivity.
+           ++ rewrite <- leaf_at_cons_obj_of. symmetry. apply HT1. discriminate.
+      * intros q Hq. rewrite H3 by exact Hq. apply Hb1out. exact Hq.
   - apply claim_value; try reflexivity; discriminate.
 Qed.
 
-(* Under the guard, the path-wise interpreter succeeds and agrees with RFC 7386 on every leaf,
-   i.e. up to empty mappings (and the order of keys). *)
+(* For every mapping-rooted object and every well-formed patch content, of any size and depth: the path-wise
+   interpreter succeeds and agrees with RFC 7386 on every leaf, i.e. up to empty mappings (and key order). *)
 Theorem dsl_is_merge p body :
-  is_obj p = true -> wf p = true -> paths_ok p body ->
+  is_obj p = true -> wf p = true -> is_obj body = true ->
   exists b', apply_dsl p body = Ok b' /\ forall q, leaf_at b' q = leaf_at (merge body p) q.
 Proof.
-  intros Ho Hwf Hok. destruct (claim_all p body [] body) as (b' & Ha & H2 & _).
+  intros Ho Hwf Hb.
+  assert (Hroot : leaf_at body [] = None) by (destruct body; try discriminate; reflexivity).
+  destruct (claim_all p body [] body) as (b' & Ha & H2 & _).
   - left. exact Ho.
   - exact Hwf.
   - intros q (r & Hr & Heq). symmetry in Heq. apply app_eq_nil in Heq. destruct Heq. contradiction.
-  - intros r o Hr. simpl. eapply Hok; eauto.
+  - intros _. exact Hroot.
   - intros q _. reflexivity.
   - exists b'. split; [exact Ha|]. intro q. specialize (H2 q). simpl in H2. rewrite H2.
     destruct p; try discriminate. reflexivity.
-Qed.
-
-(* the computable guard implies the guard *)
-Lemma paths_okb_sound p : forall body, paths_okb p body = true -> paths_ok p body.
-Proof.
-  induction p as [| | | |l IHl|kvs IHkvs|j IHj] using json_ind'; intros body H q o Hr;
-    try (destruct q; simpl in Hr; discriminate).
-  simpl in H. destruct body as [| | | | |bkvs|]; try discriminate.
-  destruct q as [|k q]; [reflexivity|].
-  simpl in Hr. destruct (lookup k kvs) as [v|] eqn:El; [|discriminate].
-  rewrite leaf_at_obj_cons. destruct (lookup k bkvs) as [bv|] eqn:Eb; [|reflexivity].
-  revert H El. induction kvs as [|[k' v'] rest IHr]; simpl; [discriminate|].
-  inversion IHkvs as [|? ? Hv' Hrest]; subst. simpl in Hv'.
-  intros H El. apply andb_true_iff in H. destruct H as [H1 H2].
-  destruct (String.eqb k k') eqn:E.
-  - injection El as ->. apply String.eqb_eq in E. subst k'. rewrite Eb in H1.
-    eapply Hv'; eauto.
-  - apply IHr; assumption.
 Qed.
 
 (* prune leaves the leaves alone *)
@@ -488,25 +513,35 @@ Proof.
   - apply IHkvs. exact Hwfs.
 Qed.
 
-(* ---------- where the guard fails ---------- *)
+(* ---------- regression: the witnesses of the repaired findings F4 and F18c ---------- *)
 
 Definition f4_patch : json := JObj [("spec", JObj [("a", JObj [("b", JNum 1%Z)])])].
 Definition f4_body : json := JObj [("spec", JObj [("a", JStr "str")])].
 
-(* F4: a type change from a non-mapping to a mapping: RFC 7386 replaces, the interpreter raises TypeError *)
-Lemma type_change_refuted :
-  exists p body, is_obj p = true /\ wf p = true /\ apply_dsl p body = ErrType /\
-                 leaf_at (merge body p) ["spec"; "a"; "b"] = Some (JNum 1%Z).
-Proof. exists f4_patch, f4_body. repeat split. Qed.
+(* F4 (fixed by 1b39531): a mapping over a string: the string is replaced, as RFC 7386 does *)
+Example type_change_regression :
+  apply_dsl f4_patch f4_body = Ok (JObj [("spec", JObj [("a", JObj [("b", JNum 1%Z)])])]) /\
+  leaf_at (merge f4_body f4_patch) ["spec"; "a"; "b"] = Some (JNum 1%Z).
+Proof. split; reflexivity. Qed.
 
 Definition f18c_patch : json := JObj [("spec", JObj [("a", JObj [])])].
 Definition f18c_body : json := JObj [("spec", JObj [("a", JNum 5%Z)])].
 
-(* F18c: an empty mapping over a scalar is ignored: the scalar survives *)
-Lemma empty_over_scalar_refuted :
-  exists p body b', is_obj p = true /\ wf p = true /\ apply_dsl p body = Ok b' /\
-                    leaf_at b' ["spec"; "a"] = Some (JNum 5%Z) /\ leaf_at (merge body p) ["spec"; "a"] = None.
-Proof. exists f18c_patch, f18c_body. eexists. repeat split. Qed.
+(* F18c (fixed by 1b39531): an empty mapping over a scalar replaces the scalar *)
+Example empty_over_scalar_regression :
+  apply_dsl f18c_patch f18c_body = Ok (JObj [("spec", JObj [("a", JObj [])])]) /\
+  leaf_at (merge f18c_body f18c_patch) ["spec"; "a"] = None.
+Proof. split; reflexivity. Qed.
+
+(* a deletion below a list: the list is replaced by {}, the deletion empties it, the parents are cleaned up *)
+Example delete_under_list_regression :
+  apply_dsl (JObj [("spec", JObj [("a", JObj [("b", JNull)])])]) (JObj [("spec", JObj [("a", JList [JNum 1%Z])])])
+  = Ok (JObj []).
+Proof. reflexivity. Qed.
+
+(* a root that is not a mapping: dicts.ensure(body, (), {}) raises ValueError *)
+Example root_not_mapping : apply_dsl (JObj []) (JNum 1%Z) = ErrValue.
+Proof. reflexivity. Qed.
 
 (* ---------- as_json_patch ---------- *)
 
@@ -527,26 +562,22 @@ Section Fidelity.
     - apply andb_true_iff in E. destruct E as [Ep Ef].
       destruct p as [| | | | |[|]|]; simpl in Ep; try discriminate.
       destruct fns; simpl in Ef; try discriminate.
-      unfold apply_dsl in Ha. simpl in Ha. injection Ha as <-.
+      assert (b' = body) as -> by (destruct body; vm_compute in Ha; try discriminate; now injection Ha as <-).
       exists [], body. repeat split. apply same_refl.
     - unfold body_to_be. rewrite Ha. simpl.
       destruct (from_diff_law body (run_fns fns b')) as (r & Hr & Hs).
       exists (from_diff body (run_fns fns b')), r. repeat split; assumption.
   Qed.
 
-  Lemma patch_error_propagates p fns body :
-    apply_dsl p body = ErrType -> patch_is_empty p = false -> as_json_patch from_diff p fns body = ErrType.
-  Proof. intros Ha Hp. unfold as_json_patch, body_to_be. rewrite Hp, Ha. reflexivity. Qed.
-
   Theorem patch_fidelity p fns body :
-    is_obj p = true -> wf p = true -> paths_ok p body ->
+    is_obj p = true -> wf p = true -> is_obj body = true ->
     exists ops b' r,
       as_json_patch from_diff p fns body = Ok ops /\
       apply_dsl p body = Ok b' /\
       (forall q, leaf_at b' q = leaf_at (merge body p) q) /\
       apply_ops ops body = Some r /\ same r (run_fns fns b').
   Proof.
-    intros Ho Hwf Hok. destruct (dsl_is_merge p body Ho Hwf Hok) as (b' & Ha & Hl).
+    intros Ho Hwf Hb. destruct (dsl_is_merge p body Ho Hwf Hb) as (b' & Ha & Hl).
     destruct (patch_applies p fns body b' Ha) as (ops & r & H1 & H2 & H3).
     exists ops, b', r. repeat split; assumption.
   Qed.
@@ -555,13 +586,15 @@ End Fidelity.
 (* ---------- non-vacuity ---------- *)
 
 Definition ex_patch : json :=
-  JObj [("spec", JObj [("a", JObj [("b", JNull); ("c", JNum 1%Z)]); ("k/~", JList [JNull]); ("gone", JNull)]);
+  JObj [("spec", JObj [("a", JObj [("b", JNull); ("c", JNum 1%Z)]); ("k/~", JList [JNull]); ("gone", JNull);
+                       ("was-a-string", JObj [("now", JStr "a mapping")])]);
         ("status", JObj [("x", JObj [("y", JStr "new")])])].
 Definition ex_body : json :=
-  JObj [("spec", JObj [("a", JObj [("b", JNum 0%Z)]); ("gone", JObj [("z", JBool true)]); ("keep", JStr "v")])].
+  JObj [("spec", JObj [("a", JObj [("b", JNum 0%Z)]); ("gone", JObj [("z", JBool true)]); ("keep", JStr "v");
+                       ("was-a-string", JStr "s")])].
 
-Example guard_satisfiable : is_obj ex_patch = true /\ wf ex_patch = true /\ paths_ok ex_patch ex_body.
-Proof. repeat split. apply paths_okb_sound. reflexivity. Qed.
+Example hypotheses_satisfiable : is_obj ex_patch = true /\ wf ex_patch = true /\ is_obj ex_body = true.
+Proof. repeat split. Qed.
 
 Lemma root_replace_law_ex : forall a b, exists r, apply_ops (root_replace_diff a b) a = Some r /\ r = b.
 Proof. intros a b. exists b. split; reflexivity. Qed.
@@ -572,10 +605,11 @@ Example fidelity_example :
     (forall q, leaf_at b' q = leaf_at (merge ex_body ex_patch) q) /\
     apply_ops ops ex_body = Some r /\ r = run_fns [] b' /\
     leaf_at b' ["spec"; "a"; "c"] = Some (JNum 1%Z) /\ leaf_at b' ["spec"; "a"; "b"] = None /\
-    leaf_at b' ["spec"; "keep"] = Some (JStr "v").
+    leaf_at b' ["spec"; "keep"] = Some (JStr "v") /\
+    leaf_at b' ["spec"; "was-a-string"; "now"] = Some (JStr "a mapping").
 Proof.
-  destruct guard_satisfiable as (Ho & Hw & Hok).
-  destruct (patch_fidelity eq (@eq_refl json) root_replace_diff root_replace_law_ex ex_patch [] ex_body Ho Hw Hok)
+  destruct hypotheses_satisfiable as (Ho & Hw & Hb).
+  destruct (patch_fidelity eq (@eq_refl json) root_replace_diff root_replace_law_ex ex_patch [] ex_body Ho Hw Hb)
     as (ops & b' & r & H1 & H2 & H3 & H4 & H5).
   exists ops, b', r. repeat split; try assumption.
   all: vm_compute in H2; injection H2 as <-; reflexivity.
